@@ -10,8 +10,10 @@ checks = sys.argv[3:] or [prop]
 src = f"/tmp/seedout-{prop}/{k}"
 if not os.path.isdir(src) and k.isdigit() and 3 < int(k) <= 6:
     src = f"/tmp/seedout-{prop}b/{int(k) - 3}"        # second round of seeds for the same property: stored as <prop>-4..6
-if not os.path.isdir(src) and k.isdigit() and int(k) > 6:
+if not os.path.isdir(src) and k.isdigit() and 6 < int(k) <= 9:
     src = f"/tmp/seedout-{prop}c/{int(k) - 6}"        # third round: stored as <prop>-7..9
+if not os.path.isdir(src) and k.isdigit() and int(k) > 9:
+    src = f"/tmp/seedout-{prop}d/{int(k) - 9}"        # fourth round: stored as <prop>-10..12
 if not os.path.isdir(src):
     src = f"/verif/seeded/{prop}-{k}"
 diff, demo = f"{src}/patch.diff", f"{src}/demo.py"
